@@ -15,34 +15,34 @@ NA = {
 }
 TRUST = "Trusted: rustc nightly type checker, MIR construction (mir-opt-level=0) and Instance resolution; txv-driver's JSON lowering. Generic code is analysed polymorphically, once. "
 CLAIMED = {
- "C01": dict(text="Static analysis of the type-checked program (MIR of every workspace target). Decides structural necessary conditions of group scoping on all paths / all containers / all levels / all prefixable commands; it does not decide that restored values are right.",
+ "C01": dict(text="Static analysis of the type-checked program (MIR of every workspace target). Decides structural necessary conditions of group scoping on all paths / all containers / all levels / all prefixable commands: pairing of every grouped container with the VM group, purge loops of global assignment (three sibling implementations), hook consumption and scope provenance, who may write, the pending-\\global flag as an exhaustively explored transition system, the record of a group written once, no assignment path that ignores its scope. It does not decide that restored values are right (DESIGN §11.5).",
              note=TRUST+"Assumes the group machinery is only entered through VM::begin_group/end_group (checked: who-may-write).",
              tech="custom MIR dataflow/CFG rules (must-pass-through, loop variance, def-use, who-may-write) via rustc_private driver"),
- "C03": dict(text="Static analysis: finite-domain specialisation (conditional constant propagation over MIR) of Lexer::next over all 16x3 (category code, scanner state) cells, of read_control_sequence over 16 categories and of CatCode::try_from over all 256 bytes, compared with tables transcribed from TeX: The Program; cursor/trace-key co-update on every path of every raw-lexer method; the unsafe ^^ byte write is unreachable when either ASCII check fails. Exhaustive over those finite domains. Line trimming, \\endlinechar insertion, trace line/column arithmetic and key-range sufficiency are value-level and not decided.",
+ "C03": dict(text="Static analysis: finite-domain specialisation (conditional constant propagation over MIR) of Lexer::next over all 16x3 (category code, scanner state) cells, of read_control_sequence over 16 categories and of CatCode::try_from over all 256 bytes, compared with tables transcribed from TeX: The Program — exhaustive over those finite domains; cursor/trace-key co-update on every path of every raw-lexer method; guarded unsafe ^^ write; unit discipline of trace keys; trimming predicates; classification by category code only and provenance of the category code; every potential-panic site of the scanner and the tracer discharged, audited or a reproduced finding (the tracer's key-space limits); lossless narrowing including the scanner's configuration. Trace line/column arithmetic and \\endlinechar insertion as values are not decided (DESIGN §11.5).",
              note=TRUST+"Reference tables transcribed by hand from TeX: The Program §§207, 343-355.",
              tech="decision-table extraction by abstract interpretation of MIR over finite key domains + CFG pairing rule"),
- "C06": dict(text="Static analysis (partial claim). Decided: the operator table of \\advance/\\multiply/\\divide (silent wrap / checked + error / checked + error; an error means no store) by finite-domain specialisation of the Op impls and apply_to_variable; the nine unit conversion fractions and both keyword->unit tables against TeX §458 (exhaustive over the enum); every potential-panic site of the numeric modules reachable from the interpreter is discharged by a checked guard, its type, a size or an audited argument, or is a reproduced finding. NOT decided, and said so: bit-exact arithmetic results, print/scan round trip and rounding — the numeric core of C06 has no static argument in reach.",
+ "C06": dict(text="Static analysis (partial claim). Decided: the operator table of \\advance/\\multiply/\\divide (silent wrap / checked + error / checked + error; an error means no store) by finite-domain specialisation; the unit conversion fractions and both keyword->unit tables against TeX §458; the 17-digit buffer, Scaled::new's check, layering of scaling arithmetic, TeX's digit classes and truncating division, a fraction only after a decimal constant, integer coercion on the magnitude, glue components printed only when non-zero, lossless narrowing; every potential-panic site of the numeric modules reachable from the interpreter is discharged, audited (some with re-checked guards) or a reproduced finding. NOT decided, and said so: bit-exact arithmetic results, print/scan round trip and rounding (DESIGN §11.5).",
              note=TRUST+"Audited discharges are arguments by reading (listed with their one-line invariant in tables/pps_audited.json).",
              tech="decision-table extraction + constant-table comparison + potential-panic-site enumeration with guard discharge over the call graph"),
- "C07": dict(text="Static analysis: sibling agreement of the four token-skipping loops on nesting discipline (unexpanded reads only, +1 on if / -1 on fi, else/or honoured only at depth 0, no other exit); the closer validity table extracted by finite-domain specialisation (exhaustive 4x3) against TeX's if_limit rule; branch-stack push/pop discipline on every path; the signed-remainder parity pattern; expand-exactly-once and token conservation in both \\expandafter implementations. Does not decide operand evaluation nor program equivalence of the two \\expandafter versions.",
+ "C07": dict(text="Static analysis: sibling agreement of the token-skipping loops on nesting discipline (unexpanded reads only, +1 on if / -1 on fi, else/or honoured only at depth 0, no other exit); the closer validity table extracted by finite-domain specialisation (exhaustive 4x3) against TeX's if_limit rule; the \\ifcase sign table; branch-stack push/pop discipline on every path; the signed-remainder parity pattern; conditions compare the operands themselves; both kinds of command reference looked up alike; expand-exactly-once, token conservation and put-back discipline of expand_once and both \\expandafter implementations. Does not decide which branch is taken as a value statement nor program equivalence of the two \\expandafter versions (DESIGN §11.5).",
              note=TRUST+"Unrecognised code shapes in the anchored loops stop the analysis (exit 2) rather than produce a verdict.",
              tech="sibling-shape comparison on CFG/dominators + decision-table extraction + def-use token conservation + bug-pattern lint"),
- "C08": dict(text="Static analysis (derive(Serialize/Deserialize) output is analysed as ordinary MIR). Decides field coverage of the serialised state graph in both directions, variant coverage of the command (de)serialisers and agreement of the save-stack twin types; fields not covered must be in an audited reconstructible table whose `requires` clauses are re-checked. Does not decide behavioural equality of the restored VM.",
+ "C08": dict(text="Static analysis (derive(Serialize/Deserialize) output is analysed as ordinary MIR). Decides field coverage of the serialised state graph in both directions, variant coverage of the command (de)serialisers, agreement of the save-stack twin types, order- and length-preserving save-stack conversion, iter_all completeness, macro de-duplication by identity, unique serialised names, lossless narrowing and order preservation in hand-written checkpoint code; fields not covered must be in an audited reconstructible table whose `requires` clauses are re-checked. Does not decide behavioural equality of the restored VM (DESIGN §11.5).",
              note=TRUST+"A field read for another purpose inside a manual Serialize impl counts as written (over-approximation; derive output only reads fields it serialises).",
              tech="field/variant coverage analysis over MIR of serde impls (projection sets, input-derivation def-use) + audited table"),
- "C09": dict(text="Static analysis. Decides the shutdown protocol for every body of the interpreter crates (linear-resource analysis of ShutdownSignal carriers, signal provenance, execution-stack pairing), the unsafe inventory with its layout preconditions, and enumerates potential-panic sites reachable from VM::run, each discharged by a checked guard / audited argument or reported. Termination and std-internal panics outside the listed kinds are not decided.",
+ "C09": dict(text="Static analysis. Decides the shutdown protocol for every body of the interpreter crates (linear-resource analysis of ShutdownSignal carriers, signal provenance, execution-stack pairing both ways), the unsafe inventory with its layout preconditions, lossless narrowing, that the error hook returns the error it was given, an inventory of statically resolved recursion cycles, and enumerates ALL potential-panic sites (explicit panics, unwrap family, overflow/bounds/division asserts, curated panicking std calls) reachable from VM::run through the built-in registry, each discharged by a checked guard / type / interval argument, audited (some with re-checked clauses and guards) or reported as a reproduced finding; 0 undecided. Termination, allocation size and recursion through the primitive registry are not decided (DESIGN §11.5).",
              note=TRUST+"Call graph over-approximates (class-hierarchy resolution of trait calls, fn-pointer registry). Audited discharges without a re-checked `requires` clause are arguments by reading.",
              tech="linear-resource (typestate) dataflow on MIR + call-graph reachability + potential-panic-site enumeration with guard discharge"),
- "C10": dict(text="Static analysis (partial claim). Decided: every explicit panic / unwrap-family site and every Add/Sub/Mul overflow assert on u8/i8/i16/u16 operands in functions reachable from tfm_to_pl / pl_to_tfm is discharged (constant, dominating comparison, type, audited author invariant) or is a reproduced finding. NOT decided, reported as `undecided` with counts: slice bounds and range slicing (the 4-byte-word invariant needs a congruence argument), 32-bit/usize arithmetic, the PL parser's span arithmetic, and that PL->TFM output is accepted by the TFM reader.",
+ "C10": dict(text="Static analysis (partial claim). Decided: ALL potential-panic sites (explicit panics, unwrap family, every overflow/bounds/division assert, curated panicking std calls incl. slicing) reachable from tfm_to_pl / pl_to_tfm and the tftopl / pltotf tools — the tfm crate, the tools and the common crate — are discharged (constant, dominating comparison, type, interval, size), audited with a per-site invariant (some re-checked by `requires` clauses and recorded guards) or reproduced findings; 0 undecided; the eleven sub-file sizes are checked non-negative and the declared length is checked in byte units before slicing; every warning sorted by offset carries one; lossless narrowing; recursion inventory. NOT decided: that PL->TFM output is accepted by the TFM reader; termination (DESIGN §11.5).",
              note=TRUST+"Most discharges in the tfm crate are the authors' stated invariants (expect messages), read and accepted — arguments by reading, listed in tables/pps_audited.json.",
              tech="potential-panic-site enumeration over the call graph from the conversion entry points, with guard/type/const discharge and an audited table"),
- "C16": dict(text="Static analysis: the deserializer's table (op_code = 0..=255, exhaustive) and the serializer's table (every Op variant x Var x move_h x fast/slow path, plus the u32_var/i32_var offset tables) are extracted from MIR by finite-domain specialisation and compared cell by cell: variant, constants, operand widths, signedness and field order; opcodes 250-255 are rejected. Axis partition of w/x/y/z agrees across Values::update and VarRemover, which passes all other operations through. Reader totality is decided by enumerating and discharging every potential-panic site of deserialize and its callees. Not decided: value-level boundary arithmetic of the 3-byte signed form, 'consumes every byte', position preservation as a value statement.",
+ "C16": dict(text="Static analysis: the deserializer's table (op_code = 0..=255, exhaustive) and the serializer's table (every Op variant x Var x move_h x fast/slow path, plus the u32_var/i32_var offset tables) are extracted from MIR by finite-domain specialisation and compared cell by cell: variant, constants, operand widths, signedness and field order. Axis partition of w/x/y/z agrees across Values::update and VarRemover, which passes all other operations through; surplus pop, whole-frame restore on pop, page reset, 223-byte count, one string encoding on both sides, lossless narrowing. Reader totality: every potential-panic site of deserialize and its callees discharged, audited or a reproduced finding. Not decided: value-level boundary arithmetic of the 3-byte signed form, position preservation as a value statement (DESIGN §11.5).",
              note=TRUST+"DVI opcode semantics are taken from the reader/writer pair themselves (agreement), plus DVI's fnt_def/string layouts transcribed by hand.",
              tech="decision-table extraction (abstract interpretation of MIR over finite key domains) + table agreement + potential-panic-site discharge"),
- "C18": dict(text="Static analysis (partial claim). Decided: the ds<->AST converters of the Box language cover every field of every ds struct and every variant of every ds/AST enum in both directions (a field dropped on either side must be in an audited table tied to the property's stated exclusions: kern/glue kinds, vbox glue setting, Whatsit), and explicit panic / unwrap-family sites reachable from parse_*, format and the printers are discharged or reproduced findings. NOT decided: that print and parse are inverse on values, formatter idempotence, bounds/arithmetic in the lexer beyond the unwrap family.",
+ "C18": dict(text="Static analysis (partial claim). Decided: the ds<->AST converters of the Box language cover every field of every ds struct and every variant of every ds/AST enum in both directions (audited drops only, tied to the property's stated exclusions); ALL potential-panic sites reachable from parse_*, format and the printers (boxworks::lang, boxworks::ds, common) are discharged, audited or reproduced findings, 0 undecided; escape range shared by lexer and printer; the formatter's mode switch; cursor discipline and agreement of the lexer's two scanners; sign over integer + fraction; characters counted as characters and byte offsets never produced from character counts; lossless narrowing; recursion inventory. NOT decided: that print and parse are inverse on values, formatter idempotence as a whole (DESIGN §11.5).",
              note=TRUST+"Keyword agreement of printer and parser holds by construction (one functions! macro table defines both).",
              tech="field/variant coverage analysis over MIR of the converter impls + potential-panic-site discharge"),
- "C20": dict(text="Static analysis. The concurrent clause (tags pairwise distinct under every schedule; a static tag resolves to one value) is decided by lock discipline in Tag::new — one Mutex guard, value read and checked write-back under it, strictly monotone — plus who-may rules (the counter, Tag construction, forging impls, StaticTag's OnceLock::get_or_init). For the containers only the API surface is decided (no mutable bypass: who-may-write + signatures, and compile_fail witnesses in the thorough tier). Model equivalence of the scoped map, interner correctness under hash collisions and KMP match positions are behavioural and NOT decided.",
+ "C20": dict(text="Static analysis. The concurrent clause (tags pairwise distinct under every schedule; a static tag resolves to one value) is decided by lock discipline in Tag::new — one Mutex guard, value read and checked write-back under it, strictly monotone — plus who-may rules (the counter, Tag construction, forging impls, StaticTag's OnceLock::get_or_init). For the containers: the API surface (no mutable bypass: who-may-write + signatures, and compile_fail witnesses in the thorough tier) and structural necessary conditions — purge loop, interner chain discipline and who may write the de-duplication map, iterated KMP fallback, KMP state moves, computed prefix function, iter_all's accumulated lookup. Model equivalence of the scoped map, full interner correctness and exact KMP match positions are behavioural and NOT decided (DESIGN §11.5).",
              note=TRUST+"Mutual exclusion and OnceLock's once-semantics are std guarantees (trusted).",
              tech="lock-discipline / def-use rule on MIR + who-may-access rules + compile_fail witnesses"),
 }
